@@ -71,6 +71,29 @@ impl C19 {
             Ok(q) => q,
             Err(e) => {
                 c.stats.bump("probe.c19.quote_refused");
+                // well inside the supported range a quote must be given: ordinary decimals, skew within
+                // 1000:1, no dust asset, an offer not above the offered asset's reserve
+                let es = e.to_string();
+                let inside = mx <= 18
+                    && amp <= 1_000_000
+                    && within_stated_skew(&xs)
+                    && !super::c03::degenerate(pool, &rs)
+                    && offer <= rs[i]
+                    && rs.iter().all(|x| *x >= 1_000_000)
+                    && pool.status.swaps_enabled;
+                if inside {
+                    c.stats.bump("probe.c19.quote_refused_inside_range");
+                    return Err(viol(
+                        "C19.quote_refused_in_range",
+                        format!(
+                            "pool {} amp {amp} decimals {:?} reserves {:?}: offering {offer} of asset {i} for asset {j} is refused: {}",
+                            pool.pool_identifier,
+                            pool.asset_decimals,
+                            rs,
+                            es.rsplit(": ").next().unwrap_or("")
+                        ),
+                    ));
+                }
                 if std::env::var("VERIF_DEBUG").is_ok() {
                     let es = e.to_string();
                     let cls = if es.contains("converge") { "converge" } else if es.contains("overflow") { "overflow" } else { "other" };
